@@ -86,6 +86,8 @@ def cases(draw, tier):
             "badlen": draw(st.sampled_from([0, 0, 1, 2, 3, 5])),
             "bad": draw(st.sampled_from(["order0", "order11", "nanparam",
                                          "nanmean", "nanini",
+                                         "nanmean-explicit-ini",
+                                         "nanmean-ini-equal-mean-of-data",
                                          "order11-trailing-zero",
                                          "order13-trailing-zeros",
                                          "order11-all-zeros",
@@ -318,6 +320,10 @@ def oracle(case):
         a = (pp, x, {})
     elif bad == "nanmean":
         a = (phi, x, {"sim_mean": np.nan})
+    elif bad == "nanmean-explicit-ini":
+        a = (phi, x, {"sim_mean": np.nan, "sim_ini": 0.5})
+    elif bad == "nanmean-ini-equal-mean-of-data":
+        a = (phi, x, {"sim_mean": np.nan, "sim_ini": -1.3})
     else:
         a = (phi, x, {"sim_mean": 0., "sim_ini": np.nan})
     for fn in (armodels.armodel_sim, armodels.armodel_residual):
